@@ -12,7 +12,8 @@ OPERATION = ".google.longrunning.Operation"
 RULE = ("APIs from harness/gv/props/flatapi.py: main package (proto-plus), optionally a dependency package (plain protobuf classes; "
         "_pb2 modules synthesised from the FileDescriptorProto) or a sub-package; services with unary, server-, client- and "
         "bidi-streaming RPCs, void RPCs, requests/responses from the package or the dependency, RPC names that need the "
-        "transport-safe or keyword suffix, responses merely named Empty (own package, nested, sub-package, dependency; not void), "
+        "transport-safe or keyword suffix, http bindings with a path variable on RPCs of every arity (implicit routing header; "
+        "client-streaming and bidi included), responses merely named Empty (own package, nested, sub-package, dependency; not void), "
         "a paged and a long-running RPC, with and without add-iam-methods and mixins. "
         "For each RPC and each of the sync and asyncio clients: the request given as message, as dict and omitted (unary) or a "
         "stream of 0..3 messages (client-streaming), random request and reply valuations, 0..3 replies for server-streaming; "
@@ -75,7 +76,10 @@ def make_api(r, shape, *, add_iam=False, mixins=False, collide=False):
         void = (not cs and not ss and r.random() < 0.3)
         rs = U.EMPTY if void else (other_resp.fqn if use_other_resp else main_resp.fqn)
         sigs = pick_sigs(r, idx0, rq.fqn, use_other_req, None, avoid_defects=True) if (not cs and r.random() < 0.4) else []
-        svc.rpc(nm, rq.fqn, rs, cs=cs, ss=ss, sigs=sigs)
+        # an http binding whose URI names a request field as path variable (implicit routing header), as Firestore.Listen/Write
+        # have: always on the first four RPCs (one of each arity, client-streaming and bidi included), at random on the others
+        http = ("post", "/v1/{name=rooms/*}:" + nm.lower()) if (i < 4 or r.random() < 0.4) else None
+        svc.rpc(nm, rq.fqn, rs, cs=cs, ss=ss, sigs=sigs, http=http, body="*" if http else None)
     if not collide:
         # requests from a dependency package with the response in the API's package: google.protobuf.Empty, and (dep shape)
         # a plain protobuf message of the dependency
@@ -539,6 +543,8 @@ class ApiRun:
                      + (["dependency-request+api-response"] if (not self.idx.proto_plus_pkg(self.idx.package_of(m.input_type))
                                                                    and self.idx.package_of(m.output_type) == fp.package) else [])
                      + (["response-named-Empty-but-not-google.protobuf.Empty"] if (m.output_type.endswith(".Empty") and m.output_type != U.EMPTY) else [])
+                     + (["http-path-variable+" + ("client-streaming" if m.client_streaming and not m.server_streaming else "bidi" if m.client_streaming
+                                                   else "server-streaming" if m.server_streaming else "unary")] if self.has_path_var(m) else [])
                      + (["keyword-or-unsafe-rpc-name"] if self.facts["services"][s.name]["methods"][j]["safe_snake"].endswith("_") else [])
                      + (["safe-name-suffix"] if self.facts["services"][s.name]["methods"][j]["safe_snake"].endswith("_") else []))
             if not o["ok"] and o.get("stage") == "import":
@@ -628,6 +634,12 @@ class ApiRun:
             if back != replies:
                 ctx.violation(f"{s.name}.{m.name} ({variant}, {sp}): returned/streamed value differs from what the server sent "
                               f"({len(back)} vs {len(replies)} messages)", dict(case, returned_b64=[U.b64(x) for x in back]), known)
+
+    @staticmethod
+    def has_path_var(m):
+        from google.api import annotations_pb2
+        rule = m.options.Extensions[annotations_pb2.http]
+        return any("{" in getattr(rule, v) for v in ("get", "put", "post", "delete", "patch"))
 
     def judge_big(self, cid, o, mt):
         ctx = self.ctx
@@ -822,6 +834,8 @@ def write_corpus():
     items.append(("w_dep_request", req, 4, None))
     req, _ = make_api(env.rng("C03-w", 5), "sub")
     items.append(("w_named_empty_sub", req, 5, None))
+    req, _ = make_api(env.rng("C03-w", 6), "same")
+    items.append(("w_streaming_http_path_variable", req, 6, None))
     for tag, req, ri, y in items:
         with open(os.path.join(CORPUS, tag + ".json"), "w") as f:
             json.dump({"tag": tag, "request_b64": apigen.req_b64(req), "rindex": ri, "service_yaml": y}, f, indent=1)
@@ -832,7 +846,7 @@ def plan(ctx):
     for name in sorted(os.listdir(CORPUS)) if os.path.isdir(CORPUS) else []:
         c = json.load(open(os.path.join(CORPUS, name)))
         jobs.append((c["tag"], apigen.req_from_b64(c["request_b64"]), c.get("rindex", 0), c.get("service_yaml")))
-    ctx.oblige("corpus: the 6 witness APIs of corpus/C03 are present", len(jobs) >= 6, f"{len(jobs)} found", "build")
+    ctx.oblige("corpus: the 7 witness APIs of corpus/C03 are present", len(jobs) >= 7, f"{len(jobs)} found", "build")
     n = ctx.n(7, 90)
     i = made = 0
     while made < n and i < 4 * n:
